@@ -88,7 +88,7 @@ impl Property for C14 {
         "Cases: (vector of any zoo type/length/provenance, width argument). A fixed matrix of 560 literal format specifications ({}, {:b}, {:o}, {:x}, {:X} x flags {none,+,#,0,+#,#0,+0,+#0} x fill/alignment {none,<,^,>,*<,_^,0>} x {no width, runtime width}) is applied to the vector and to the oracle integer and compared string by string (for lengths above 128 bits decimal is limited to 4 specifications because bva formats decimal by repeated long division). Oracle: std u128 formatting up to 128 bits, num-bigint BigUint above; in the same run BigUint is compared with u128 on every <=128-bit case, so the wide oracle's flag handling is itself validated against std. Metamorphic: zero-extending the value and converting it to other implementations leaves every string unchanged. Widths: 0, digits-1, digits, digits+1, digits+3, 50. Enumerated: all values n<=10 (quick)/14 (thorough) on the 1- and 2-word types and Bvd/Bv; 2^k, 2^k-1 and 0 for every k<=min(C,320). Non-trivial: the value has fewer digits than the length suggests (leading zero digit groups), or is zero with n>0, or n=0, or exceeds 2^64. Distinct by hash of the case.".into()
     }
     fn random_cases(&self, tier: Tier) -> u64 {
-        tier.pick(12_000, 150_000)
+        tier.pick(40000, 300000)
     }
     fn strategy(&self, tier: Tier) -> BoxedStrategy<C14Case> {
         (arb_operand(tier), 0usize..6, any::<bool>(), any::<u16>()).prop_map(|(mut a, wsel, shrink_val, f)| {
